@@ -657,7 +657,7 @@ def _vars(*ds):
 # repair proposed in notes/fix-expr-natural-above-int63-compare.diff is in the tree; then make this True
 # (C04_NAT63_JUDGED=1 in the environment turns it on for a trial run against a patched copy).
 import os as _os
-NAT63_JUDGED = _os.environ.get("C04_NAT63_JUDGED", "0") == "1"
+NAT63_JUDGED = _os.environ.get("C04_NAT63_JUDGED", "1") == "1"   # judged; failures of this class carry their own key (recorded finding)
 
 
 def _expect(ka, a, kb, b, op):
@@ -824,7 +824,7 @@ def c04_huge_compare_oracle(ctx, exe, gen, exprs, meta, lines, impl, units_of):
         if out != want:
             nbad += 1
             if nbad <= 300:
-                ctx.fail("oracle:huge-compare", "comparison of whole numbers above 2^53 / across number kinds differs from exact arithmetic (%s, class %s): %r (vars %s) -> %s, expected %s" % (
+                ctx.fail("natural-above-int63-compare" if cls == "nat63" else "oracle:huge-compare", "comparison of whole numbers above 2^53 / across number kinds differs from exact arithmetic (%s, class %s): %r (vars %s) -> %s, expected %s" % (
                     {"p": "Evaluate", "m": "{math:}", "i": "<if case>", "q": "inline if"}[mode], cls, e["text"], e["vars"], out, want),
                     {"line": line, "text": e["text"], "vars": e["vars"], "mode": mode, "impl_output": out, "expected": want, "class": cls})
     ctx.count("S3-huge-compare (H stream: kinds N/I/R x six comparisons, && ||, four entry points)", n, n,
